@@ -6,8 +6,9 @@ LEAN_MODS = ["Cte.Props.C19"]
 HARNESS = "c19"
 N = {"quick": 1, "thorough": 1}
 USES_DRIVER = True
-CORRESPONDENCES = ["Polygon::edge_vertices(name) on an outline of n vertices = Damage.edgeVertices (indices, none, never a crash)"]
-SPEC_FAMILIES = (CORRESPONDENCES[0],)
+CORRESPONDENCES = ["Polygon::edge_vertices(name) on an outline of n vertices = Damage.edgeVertices (indices, none, never a crash)",
+                   "Data::new + Model::try_from on a damaged generated project = Pipeline.verdict (converted / rejected / crashed)"]
+SPEC_FAMILIES = (CORRESPONDENCES[0], CORRESPONDENCES[1])
 RULE = ("fault enumeration on the implementation: every shipped project file (12 .ctehexml, 56 .cte, 3 KyGananciasSolares.txt, 6 NewBDL_O.tbl) "
         "x a seeded 1-in-stride slice of its lines (quick: stride 160, thorough: stride 4; --stride 1 is exhaustive) x 10 single edits (delete, "
         "duplicate, swap with next, remove block/element, number -> text / 1e39 / 123456789012 / -7, rename a quoted reference, truncate here); "
@@ -16,14 +17,21 @@ RULE = ("fault enumeration on the implementation: every shipped project file (12
         "against the model; non-trivial = the edit applies to the line; distinct = distinct (file, line, edit)")
 ASSUMPTIONS = ["a panic is caught by catch_unwind in the worker (the harness builds /repo with panic=unwind; the shipped release profile aborts instead)",
                "a damaged file that needs more than 20 s is a hang (intact files take < 1 s)"]
-TRUSTED = ["modelled: Cte/Model/Damage.lean (edge_vertices) and Schedules.periodLengths (year-schedule day counts); everything else the damaged "
-           "files reach (XML reader, BDL block parser, systems sections, conversion) is exercised on the implementation only — the theorems do not "
-           "cover it, the enumeration does"]
+TRUSTED = ["modelled: the BDL path of a project — Bdl.buildBlocks (block parser), BdlData.dataNew (typed elements, Data::new), Conv.convert "
+           "(references of Model::try_from), Damage.edgeVertices, Schedules.periodLengths — proved never to crash (pipeline_never_crashes) and compared "
+           "with the implementation's verdict on damaged generated projects; the XML reader, the systems sections, the catalogue, geometry values and "
+           "the indicator-free parts of the conversion are exercised on the implementation only: for them the enumeration decides, not a theorem"]
 _stats = collections.Counter()
 _summary = {}
 
 
 def compare(case, out):
+    if case.get("op") == "verdict":
+        _stats["verdict_cases"] += 1
+        _stats["verdict:" + case["impl"]] += 1
+        if case["impl"] != out.get("v"):
+            return [(CORRESPONDENCES[1], f"{case['label']}: implementation {case['impl']}, model {out.get('v')}")]
+        return []
     if case.get("op") != "edgevert":
         return []
     _stats["edge_cases"] += 1
@@ -39,6 +47,10 @@ def oracle(case):
     v = []
     k = case.get("kind")
     i = case["impl"]
+    if k == "verdict":
+        if i == "crashed":
+            v.append({"what": f"{case['label']}: parsing + conversion of a damaged generated project crashes", "key": {"class": "panic", "site": "generated-project"}})
+        return v
     if k == "failure":
         ex = i["first_example"]
         where = f"{ex['file']} line {ex['line']} edit {ex['edit']}"
@@ -64,6 +76,8 @@ def distinct_key(case):
 
 
 def branch(case, out):
+    if case.get("op") == "verdict":
+        return "verdict:" + case["impl"]
     if case.get("op") == "edgevert":
         imp = case["impl"]
         return "edge:" + (imp if isinstance(imp, str) else "some")
